@@ -15,6 +15,7 @@ DOC = {
         'C17.R1': 'arg::split: every &s[a..b] is indexed by byte offsets (unit lint: a counter incremented by 1 per char is CHARS)',
         'C17.R2': 'SPECIAL_CHARS is a superset of | & ; < > ( ) $ ` \\ " space tab * ? [ # ~ = % { }',
         'C17.R3': "quote(): branch 1 iff any char < 0x20, == 0x7f, == U+FFFD or == '\\''; branch 2 iff any char in SPECIAL_CHARS -> '...'; else bare",
+        'C17.R5': 'splitter/quoter agreement: every character arg::split treats specially (delimiters, quotes, escapes, comment) forces quoting in arg::quote; split uses no character-class predicate that quote does not mirror',
         'C17.R4': "$'..' encode = to_stfu8 then replace(' -> \\'); decode = replace(\\' -> ') then from_stfu8",
     },
     'not_decided': 'bash\'s own tokenisation; the stfu8 crate; equality of the round trip for all strings (needs a reference model / fuzzing)',
@@ -59,6 +60,7 @@ def run(ctx):
     r2(ctx, lib)
     r3(ctx, lib)
     r4(ctx, lib)
+    r5(ctx, lib)
 
 
 def r1(ctx, lib):
@@ -196,3 +198,52 @@ def r4(ctx, lib):
         ctx.check(bool(jc) and sep == '" "', rule, 'arg::join|separator', j.where(), 'arguments joined with a single space', 'join separator is %s' % sep)
         qc = [lib.body(p) for p in lib.closures_of(j.path)]
         ctx.check(any(x.calls(r'arg::Arg::quote$') for x in qc), rule, 'arg::join|quotes-each', j.where(), 'every argument is quoted', 'join does not quote every argument')
+
+
+def r5(ctx, lib):
+    rule = 'C17.R5'
+    sp = ctx.need_body(rule, 'arg::split')
+    if sp is None:
+        return
+    special = const_chars(lib, 'arg::SPECIAL_CHARS') or []
+    quoted = set(ord(c) for c in special) | set(range(0, 0x20)) | {0x7f, 0xfffd, 0x27}
+    nx = sp.calls(r'Chars.*Iterator>::next$')
+    if not nx:
+        ctx.missing(rule, 'Chars::next in arg::split', sp.where())
+        return
+    src = nx[0].dest[0]
+    vals = set()
+    n_sw = 0
+    for bi, blk in enumerate(sp.blocks):
+        t = blk['term']
+        if t['k'] != 'switch' or blk['cleanup']:
+            continue
+        p = op_place_(t['op'])
+        sl = backslice(sp, [t['op']])
+        if src in sl.locals and any(sp.local_ty(l) == 'char' for l in sl.locals | ({p[0]} if p else set())) or (p and p[0] == src and any(isinstance(e, list) and e[0] == 'F' for e in p[1])):
+            # a switch on the character itself (not on the Option discriminant)
+            if p and p[0] == src and not any(isinstance(e, list) and e[0] == 'F' for e in p[1]):
+                continue
+            if set(t['vals']) <= {0, 1} and not (p and any(isinstance(e, list) and e[0] == 'F' for e in p[1])):
+                continue
+            n_sw += 1
+            vals |= set(t['vals'])
+    vals = {v for v in vals if v > 1 or v in (0,)} - {0, 1} | {v for v in vals if v in (9, 10, 32)}
+    ctx.floor(rule, 'character switches in arg::split', n_sw, 5, sp.where())
+    unquoted = sorted(v for v in vals if v not in quoted)
+    ctx.check(not unquoted, rule, 'arg::split|special-chars-are-quoted', sp.where(), 'all %d characters with a special meaning to the splitter (%s) force quoting' % (len(vals), ' '.join(repr(chr(v)) for v in sorted(vals))),
+              'the splitter gives a special meaning to %s, which quote() prints bare' % [repr(chr(v)) for v in unquoted])
+    preds = [c for c in sp.calls(r'char::methods::<impl char>::is_\w+$|<impl char>::is_\w+$')]
+    q = lib.body('arg::quote')
+    qpreds = set()
+    if q is not None:
+        for cb in [q] + [lib.body(x) for x in lib.closures_of(q.path)]:
+            qpreds |= {c.path.rsplit('::', 1)[-1] for c in cb.calls(r'<impl char>::is_\w+$')}
+    bad = [c for c in preds if c.path.rsplit('::', 1)[-1] not in qpreds]
+    ctx.check(not bad, rule, 'arg::split|no-unmirrored-class', (bad[0].where() if bad else sp.where()), 'the splitter uses no character class that the quoter does not know',
+              'the splitter treats the class char::%s specially, but quote() decides by its explicit table: characters of that class outside the table (e.g. U+00A0, U+3000 for is_whitespace) are written bare and split on reading' % (bad[0].path.rsplit('::', 1)[-1] if bad else ''))
+
+
+def op_place_(o):
+    from ..facts import op_place
+    return op_place(o)
